@@ -2,6 +2,7 @@ import ScyllaVerif.Model.Util
 import ScyllaVerif.Model.MergeChannel
 import ScyllaVerif.Model.MetaUpdate
 import ScyllaVerif.Model.ClusterConsumer
+import ScyllaVerif.Model.RefreshFlow
 /-! Line-protocol driver for C19.
 
 * `chan <op>;<op>;…` — the merge channel at poll granularity. Producer: `m<x>` merge, `D` drop sender.
@@ -14,6 +15,10 @@ import ScyllaVerif.Model.ClusterConsumer
   merge_topology_update, `U<addr>` / `W<addr>` up / down hint, `K` take.
 * `worker <op>;…` — a real `ClusterWorker` behind the channel: the same merge ops, an optional leading `S1` (client-routes
   subscriber configured) and `K` = the consumer catches up (takes the slot, then a sentinel hint); prints what is published.
+* `producer <op>;…` — a real `MetadataWorker` on a control connection to a mock node that holds every full fetch until the
+  case releases it: `q` request, `o` / `e` the fetch in flight succeeds / fails, `t` the consumer takes the slot and answers.
+  The driver replays the ops as `RefreshFlow` events (`request`, `recvRequest`, `periodicFetch`, `fetchOk`, `fetchErrOnCc`,
+  `fetchErrNoCc`, `consumerTake`, `consumerFinish`).
 * `stress <n> <mode> <seed>` — two OS threads; the schedule is not observable, the line only says that the
   concatenation of everything received was `0..n` and that `None` came last (what `Props.C19` proves for every schedule).
 * `race <reps> <n> <seed>` — `reps` such rounds with a tiny `n` (the drop follows the last merge at once).
@@ -260,6 +265,67 @@ def runWorker (ops : List String) : String :=
 
 end Worker
 
+/-! ### producer: the metadata worker's request handling -/
+section Producer
+open ScyllaVerif.MetaUpdate ScyllaVerif.RefreshFlow
+
+structure ProducerSt where
+  flow : Flow := {}
+  /-- the worker serves a control connection (`work_on_cc`) / establishes one (`work_without_cc`). -/
+  onCc : Bool := true
+  /-- candidates left in the running establishment attempt (the harness's single node is tried twice per attempt). -/
+  candidates : Nat := 0
+  tag : Nat := 1
+
+/-- What the worker does on its own once it runs: picks up a waiting request (which starts a fetch), or - without a
+control connection - starts the next establishment attempt. -/
+def producerSettle (st : ProducerSt) : ProducerSt :=
+  if st.flow.fetching then st
+  else if !st.flow.waiting.isEmpty then { st with flow := RefreshFlow.step st.flow .recvRequest, candidates := 2 }
+  else if !st.onCc then { st with flow := RefreshFlow.step st.flow .periodicFetch, candidates := 2 }
+  else st
+
+def producerOp (st : ProducerSt) (op : String) : Option (ProducerSt × String) :=
+  let fin (st' : ProducerSt) (took : String) : ProducerSt × String :=
+    let ok := st'.flow.answeredOk.drop st.flow.answeredOk.length
+    let err := st'.flow.answeredErr.drop st.flow.answeredErr.length
+    let dr := st'.flow.dropped.drop st.flow.dropped.length
+    (st', s!"f={if st'.flow.fetching then 1 else 0} took={took} ok={listStr (ok.map toString)} err={listStr (err.map toString)} drop={listStr (dr.map toString)}")
+  if op == "q" then
+    some (fin (producerSettle { st with flow := RefreshFlow.step st.flow .request }) "-")
+  else if op == "o" then
+    if st.flow.fetching then
+      some (fin (producerSettle { st with flow := RefreshFlow.step st.flow (.fetchOk { peers := st.tag }), onCc := true,
+                                          tag := st.tag + 1 }) "-")
+    else some (fin st "-")
+  else if op == "e" then
+    if !st.flow.fetching then some (fin st "-")
+    else if st.onCc then
+      some (fin { st with flow := RefreshFlow.step st.flow .fetchErrOnCc, onCc := false, candidates := 2 } "-")
+    else if st.candidates > 1 then
+      some (fin { st with flow := RefreshFlow.step st.flow .fetchErrOnCc, candidates := st.candidates - 1 } "-")
+    else some (fin (producerSettle { st with flow := RefreshFlow.step st.flow .fetchErrNoCc }) "-")
+  else if op == "t" then
+    match st.flow.slot with
+    | none => some (fin st "-")
+    | some u =>
+      let took := s!"{kind (some u)}/{(refreshIds (some u)).length}"
+      some (fin { st with flow := RefreshFlow.step (RefreshFlow.step st.flow .consumerTake) .consumerFinish } took)
+  else none
+
+def runProducer (ops : List String) : String :=
+  let rec go : List String → ProducerSt → List String → Option (List String)
+    | [], _, out => some out.reverse
+    | op :: rest, st, out =>
+      match producerOp st op with
+      | none => none
+      | some (st', w) => go rest st' (w :: out)
+  match go ops {} [] with
+  | none => "bad-case"
+  | some out => ";".intercalate out
+
+end Producer
+
 def opsOf (body : String) : List String := (body.splitOn ";").filter (· ≠ "")
 
 def run (case _impl : String) : String :=
@@ -268,6 +334,7 @@ def run (case _impl : String) : String :=
   | ["chan"] => runChan []
   | ["slot", body] => runSlot (opsOf body)
   | ["slot"] => runSlot []
+  | ["producer", body] => runProducer (opsOf body)
   | ["worker", body] => runWorker (opsOf body)
   | ["worker"] => runWorker []
   | ["stress", n, _mode, _seed] =>
